@@ -120,6 +120,9 @@ func checkC04(p *Program, r *Reporter) {
 	r.Rule("E3-Bx", "", 0)
 	e.classB("E3-B", wrapFns)
 	belowStartRule(p, r, wrapFns)
+	if h := p.mustFunc(r, pkgApp, "(*Server).livesimHandlerFunc"); h != nil {
+		startGuardRule(p, r, h, "writeSegment", "writeInitSegment")
+	}
 }
 
 func checkC02(p *Program, r *Reporter) {
